@@ -105,10 +105,10 @@ package joinserver
 // handleJoinRequest / handleRejoinRequest iterate over a slice of task functions (dynamic calls): they are NOT
 // verified as a whole; the wrappers are checked against an unconstrained result of them.
 //@ func handleJoinRequest
-//@   trusted
+//@   trusted iterates over a slice of task functions (dynamic calls): not verified as a whole; assumed to modify nothing its caller can see (arguments are passed by value, the KEK slices are only read)
 //@   modifies nothing
 //@ func handleRejoinRequest
-//@   trusted
+//@   trusted iterates over a slice of task functions (dynamic calls): not verified as a whole; assumed to modify nothing its caller can see (arguments are passed by value, the KEK slices are only read)
 //@   modifies nothing
 //@ func handleJoinRequestWrapper
 //@   props C16
